@@ -18,8 +18,10 @@
 From V Require Import Common.Base.
 Require V.Gen.MQTables_gen.
 
-Definition u32 (x : Z) : Z := wrapU 32 x.
-Definition u8 (x : Z) : Z := wrapU 8 x.
+(* uint32(x) / uint8(x).  Written as a mask, which is the same function as Base.wrapU 32 / 8
+   for every integer (MqProofs.u32_wrapU, u8_wrapU) and much cheaper to evaluate. *)
+Definition u32 (x : Z) : Z := Z.land x 0xFFFFFFFF.
+Definition u8 (x : Z) : Z := Z.land x 0xFF.
 
 (* Go: x << uint(n) on uint32 with n an int: a negative n converts to a huge uint, and a shift
    count >= 32 yields 0. *)
